@@ -396,6 +396,8 @@ async def tee_peer(
             if peer_buffer is buffer:
                 peers.pop(idx)
                 break
+        # release buffered items right away; peers may still reference the buffer itself
+        buffer.clear()
         # if we are the last peer, try and close the iterator
         if not peers and isinstance(iterator, ACloseable):
             await iterator.aclose()
